@@ -97,7 +97,7 @@ def run(ctx):
     for mod, cfg, inv in (("RawVectorImpl", "MC_RawVectorImpl_aliasbug.cfg", "Refines"),
                           ("RawVectorImpl", "MC_RawVectorImpl_erasebug.cfg", "ReturnsAgree"),
                           ("BufferImpl", "MC_BufferImpl_growbug.cfg", "BRepInv")):
-        r = vlib.tlc(mod, cfg, workers=4)
+        r = vlib.tlc(mod, cfg, workers=4, expect=inv)
         if inv not in r.invariant_violated:
             raise vlib.Infra("vacuity guard: %s did not violate %s" % (cfg, inv))
         ctx.extra.setdefault("vacuity_guards", []).append({"cfg": cfg, "violates": inv, "states": r.distinct})
